@@ -20,7 +20,7 @@ func main() {
 		runC06()
 	case "C03":
 		runC03()
-	case "C18":
+	case "C18", "C18A":
 		runC18()
 	case "C01API":
 		runC01API()
